@@ -81,6 +81,25 @@ func genOp(r *simrt.RNG, renameBias float64) Op {
 		k2 := keys[r.Intn(len(keys))]
 		return Op{Op: "rename", K: k, K2: k2}
 	}
+	if r.Intn(8) == 0 {
+		// the other builtins that write a field through the same point API
+		switch r.Intn(7) {
+		case 0:
+			return Op{Op: "raw1", K: k, Lit: "uppercase"}
+		case 1:
+			return Op{Op: "raw1", K: k, Lit: "trim"}
+		case 2:
+			return Op{Op: "raw1", K: k, Lit: "url_decode"}
+		case 3:
+			return Op{Op: "raw1", K: k, Lit: "sql_cover"}
+		case 4:
+			return Op{Op: "replace", K: k, Lit: []string{"[a-z]+", "\\d", "l+"}[r.Intn(3)]}
+		case 5:
+			return Op{Op: "strfmt", K: k, K2: keys[r.Intn(len(keys))]}
+		default:
+			return Op{Op: "datetime", K: k, Lit: []string{"RFC3339", "ANSIC", "nope"}[r.Intn(3)]}
+		}
+	}
 	switch r.Intn(14) {
 	case 0, 1, 2:
 		return Op{Op: "add_key", K: k, Lit: lits[r.Intn(len(lits))]}
@@ -181,6 +200,14 @@ func renderSeg(sg *Segment) string {
 			fmt.Fprintf(&b, "default_time(%s)\n", op.K)
 		case "grok":
 			fmt.Fprintf(&b, "grok(%s, %q)\n", op.K, op.Lit)
+		case "raw1":
+			fmt.Fprintf(&b, "%s(%s)\n", op.Lit, op.K)
+		case "replace":
+			fmt.Fprintf(&b, "replace(%s, %q, \"X\")\n", op.K, op.Lit)
+		case "strfmt":
+			fmt.Fprintf(&b, "strfmt(%s, \"%%v|%%v\", %s, f1)\n", op.K, op.K2)
+		case "datetime":
+			fmt.Fprintf(&b, "datetime(%s, \"ms\", %q)\n", op.K, op.Lit)
 		default:
 			panic("c10: unknown op " + op.Op)
 		}
@@ -465,9 +492,10 @@ func (t *taskRun) run(ld []*runtime.Script, base int, when func() (tm input.Poin
 		if cls, detail := invariants(pt); cls != "" {
 			t.fail("invariant", "init:"+cls, detail, -1)
 		}
-		err := ld[base+si].Run(pt, t.sig)
-		if err != nil {
-			t.fail("harness", "run-error", "segment script returned an error: "+err.Error(), -1)
+		// a run-time error of a builtin (e.g. an unsupported datetime layout) ends the script like an
+		// abort between two operations; the invariants must hold on the point as it was left
+		if err := ld[base+si].Run(pt, t.sig); err != nil {
+			t.obs = append(t.obs, "ERR "+err.Error())
 		}
 		if cls, detail := invariants(pt); cls != "" {
 			t.fail("invariant", cls, detail, -1)
